@@ -410,6 +410,12 @@ func (r *Reconciler) reconcileAbort(ctx context.Context, proposal *configapi.Pro
 				log.Warnf("Failed reconciling Transaction %d Proposal to target '%s'", proposal.TransactionIndex, proposal.TargetID, err)
 				return controller.Result{}, err
 			}
+			// The next proposal may have been waiting for the committed index to reach this proposal.
+			if proposal.Status.NextIndex != 0 {
+				return controller.Result{
+					Requeue: controller.NewID(proposalstore.NewID(proposal.TargetID, proposal.Status.NextIndex)),
+				}, nil
+			}
 		} else if config.Status.Applied.Index == proposal.Status.PrevIndex &&
 			config.Status.Committed.Index >= proposal.TransactionIndex {
 			config.Status.Applied.Index = proposal.TransactionIndex
